@@ -88,7 +88,9 @@ theorem executeCommand_connStep (pf : FloatOracle) (srv : SrvSt) (conn : ConnSt)
         · exact post_bind _ _ _ same
         · split
           · exact post_bind _ _ _ same
-          · exact same _
+          · split
+            · exact post_bind _ _ _ same
+            · exact same _
 
 theorem handleArray_connStep (pf : FloatOracle) (srv : SrvSt) (conn : ConnSt) (f : Nat) (es : List Msg) :
     Post (ConnStepRel srv (match dispatchedOf f es with | none => conn | some (cmd, args) => connAfterCmd srv conn cmd args))
